@@ -110,14 +110,14 @@ CHECKS = {
         note="A stand-alone comment that is the last thing of its block, precedes a case clause or sits inside a multi-line expression, and files with //line directives, are left unspecified (DESIGN 5.1).",
         technique="Coq proof (pruned-walk = first node after the comment; marker = filter; first-unsuppressed-use) + model and text-oracle correspondence through the real binary"),
     "C17": dict(
-        text=("Theorems (Coq): every diagnostic of the four AST checkers carries a code of the table regenerated from codes.go, of the category of the checker that produced it (per-checker code "
+        text=("Theorems (Coq): every diagnostic of the five checkers carries a code of the table regenerated from codes.go, of the category of the checker that produced it (per-checker code "
               "lemmas + by-computation obligations on the table); the rendered message is `error: [CODE] message` first and, whenever an excerpt is rendered, ends with the help line of the "
               "code's category, whose URL (regenerated from codes.go) is the category's documentation page; every diagnostic stems from a kept file of the package (C14); `// @ignore CODE` "
               "parses to exactly [CODE] for all 16 codes; one more marker [CODE] over the diagnostic's line suppresses it and leaves every diagnostic on another line, or with another table "
               "code, decided as before. Tied to the code on every diagnostic of generated worlds (all 16 codes, two configurations): header shape, table membership, analyzer of the category "
-              "(names regenerated from analyzer.go), file of the reporting package and not excluded, help line; FULL message text byte-equal to the model's rendering for IMM/CTOR/TONL/PKGO; "
+              "(names regenerated from analyzer.go), file of the reporting package and not excluded, help line; FULL message text byte-equal to the model's rendering for all five categories; "
               "a stratified sample re-run with `// @ignore CODE` appended (C07 text oracle + model); text-mode exit status vs printed diagnostics."),
-        note="IMPL messages are checked for shape/analyzer/URL/suppressibility on the implementation only until the @implements model lands. Lines already ending in a // comment are skipped for the suppression step. Exit status: multichecker's (library behaviour, observed).",
+        note="Lines already ending in a // comment are skipped for the suppression step. Exit status: multichecker's (library behaviour, observed).",
         technique="Coq proof (code lemmas per checker, message shape, own-code marker) + per-diagnostic and full-text correspondence through the real binary"),
     "C10": dict(
         text=("Theorems (Coq, every package tree, facts set and configuration): Go's partial operations that the analyzers perform are explicit outcomes of the model and are never taken - "
@@ -149,7 +149,7 @@ CHECKS = {
               "filtering before the once-per-file dedup (TONL01, PKGO01: proved via 'all keyed candidates carry one code'); excluded iff the list holds ALL, the category or the code; ALL excludes "
               "everything, other tokens nothing; the configuration reaches the analysis only as that global suppression. Tied to the code by runs of the real binary under every single token, "
               "category pairs, random subsets in any case/spacing by flag and env, each compared with the filtered unrestricted run and with the model."),
-        note="ASCII tokens. IMPL codes are compared metamorphically (filtered baseline) until the @implements model lands.",
+        note="ASCII tokens. IMPL codes are compared with the model like the others (the @implements model is part of x_analyze) and metamorphically against the filtered baseline.",
         technique="Coq proof (exclusion commutes with both filtering disciplines) + metamorphic and model correspondence through the real binary"),
     "C14": dict(
         text=("Theorems (Coq): a file is skipped iff its name contains an exclude-paths entry or (scan-tests off and it ends in _test.go) - with substring/suffix proved to mean what they say; the "
@@ -166,7 +166,7 @@ CHECKS = {
               "imports carry annotations the four AST checkers return nothing for every tree and suppression state. Tied to the code by the real binary on the whole Go standard library and the "
               "repository's dependencies under two configurations (zero diagnostics, exit 0), and by generated worlds where every annotation is a near-miss or in an inert placement "
               "(implementation and model: zero diagnostics, no annotation collected)."),
-        note="Corpora are inputs to the correspondence, not to the theorem; their doc lines are read by the real reader only. IMPL is silent trivially (no annotation => early return) and joins the theorem with the @implements model.",
+        note="Corpora are inputs to the correspondence, not to the theorem; their doc lines are read by the real reader only. The silence theorem covers all five checkers (the @implements checker is part of x_analyze). By the grammar theorems of C15 a line is unrecognised as soon as it lacks the head blanks // blanks @keyword - e.g. every line without an @ sign (C09_no_at_sign_no_annotation).",
         technique="Coq proof (unrecognised lines => empty annotations => empty indices => no diagnostics) + corpus runs through the real binary + near-miss worlds"),
     "C12": dict(
         text=("Theorems (Coq): the IMM and CTOR diagnostics of a package are, up to order, a function of the MULTISET of top-level declarations of its non-excluded files (Permutation in, "
